@@ -8,32 +8,43 @@
     and the same definitions are what Judge/JParser.v runs against the real parser.
 
     The full property (for every well-formed model m and every lexical style s,
-    parse (render s m) = Ok m) is NOT proved; it is also false of the code (theorems
-    [..._refuted] below, each replayed on the real parser by tools/props/c10.py).  What is proved
-    for all inputs is listed stage by stage, following DESIGN.md section C10. *)
+    parse (render s m) = Ok m) is NOT proved; it is also still false of the code in one respect (a line
+    break inside a declaration head, [c10_separator_comment_independence_refuted], known finding C10-F16,
+    replayed on the real parser by tools/props/c10.py).  The other defects recorded on the pinned grammar
+    (keyword prefixes C10-F8a..e, lexical defects C10-F17..F20, enum numbering past the largest integer
+    C10-F22) have been repaired in grammar.peg / grammar.peg.go; the theorems that refuted the property on
+    them are now the positive statements [c10_keyword_boundary], [c10_fieldtype_longest_match],
+    [c10_field_modifier_boundary], [c10_function_type_boundary], [c10_bool_constant_boundary],
+    [c10_separator_comment_independence_instances], [c10_literal_roundtrip_instances] and
+    [c10_enum_numbering] (which no longer needs a range hypothesis).  What is proved for all inputs is
+    listed stage by stage, following DESIGN.md section C10. *)
 From Coq Require Import ZArith List Bool String Lia.
 From FV Require Import Model.PegSyntax Model.Peg Model.PegWf Model.ParserStrings Model.ParserAst Model.ParserActions
      Model.Parser Model.ParserFiles Gen.Grammar Proofs.PegProofs Proofs.ParserProofs Proofs.ParserLexProofs
      Proofs.ParserEvals Proofs.ParserRoundTrip Proofs.ParserRoundTripEnum Proofs.ParserPrefixProofs
      Proofs.ParserRoundTripStruct Proofs.ParserRoundTripConst Proofs.ParserRoundTripService Proofs.ParserRoundTripFile
-     Proofs.ParserFragmentCheck.
+     Proofs.ParserFragmentCheck Proofs.ParserKeywordProofs.
 Import ListNotations.
 Open Scope Z_scope.
 
 (** * Stage 1. Enum numbering
-    (repaired code: repo commit "fix: number enum values as Apache Thrift does").
-    For every list of declared enum values whose Thrift numbers stay below the largest 64-bit integer,
-    the numbers the Enum action assigns are exactly Apache Thrift's (explicit kept, implicit =
-    previous + 1, first implicit = 0); names, comments and annotations are untouched whatever the
-    numbers.  On the pinned code this was refuted by  A=5, B=2, C  (C = 6).
-    The range hypothesis is needed: see [c10_enum_numbering_overflow_refuted]. *)
+    (repaired code: repo commits "fix: number enum values as Apache Thrift does" and "fix: an enum value that
+    would follow 9223372036854775807 is an error").
+    For every list of declared enum values (explicit numbers are 64-bit integers, as IntConstant yields them):
+    if every number Apache Thrift assigns (explicit kept, implicit = previous + 1, first implicit = 0) is a
+    64-bit integer, the Enum action reports no error and assigns exactly those numbers; otherwise (a value
+    without a number follows 9223372036854775807, so that Thrift's previous + 1 does not exist in 64 bits)
+    the action returns its error.  Names, comments and annotations are untouched whatever the numbers.
+    On the pinned code this was refuted by  A=5, B=2, C  (C = 6) and, until the second repair, by
+    A = 9223372036854775807, B  (B = -9223372036854775808). *)
 Theorem c10_enum_numbering : forall evs : list (enum_value * bool),
-  numbering_in_range (map declared_value evs) (-1) ->
-  map ev_value (enum_number evs 0) = thrift_numbering (map declared_value evs) (-1)
-  /\ map ev_name (enum_number evs 0) = map (fun p => ev_name (fst p)) evs
-  /\ map ev_comment (enum_number evs 0) = map (fun p => ev_comment (fst p)) evs
-  /\ map ev_anns (enum_number evs 0) = map (fun p => ev_anns (fst p)) evs.
-Proof. exact enum_numbering_full. Qed.
+  explicit_in64 evs ->
+  (Forall in64 (thrift_numbering (map declared_value evs) (-1)) ->
+     enum_overflow evs 0 false = None
+     /\ map ev_value (enum_number evs 0) = thrift_numbering (map declared_value evs) (-1))
+  /\ (~ Forall in64 (thrift_numbering (map declared_value evs) (-1)) ->
+      exists v, enum_overflow evs 0 false = Some v).
+Proof. exact enum_numbering_exact. Qed.
 Print Assumptions c10_enum_numbering.
 
 Theorem c10_enum_numbering_keeps : forall evs : list (enum_value * bool),
@@ -43,16 +54,14 @@ Theorem c10_enum_numbering_keeps : forall evs : list (enum_value * bool),
 Proof. exact enum_numbering_keeps_full. Qed.
 Print Assumptions c10_enum_numbering_keeps.
 
-(** Without the range hypothesis the statement is false of the code: [next = ev.Value + 1] is Go [int]
-    arithmetic, so the value after  A = 9223372036854775807  is -9223372036854775808 where Apache
-    Thrift's previous + 1 is 9223372036854775808 (known finding C10-F22; found by the generator of the
-    proved fragment, replayed on the real parser by tools/props/c10.py, hazard enum_value_after_max_int64). *)
-Theorem c10_enum_numbering_overflow_refuted : forall n1 n2 : bytes,
-  map ev_value (enum_number [(mkev None n1 9223372036854775807 [], true); (mkev None n2 (-1) [], false)] 0)
-  = [9223372036854775807; -9223372036854775808]
+(** the former witness of C10-F22 ([c10_enum_numbering_overflow_refuted]): the value after
+    A = 9223372036854775807  is reported (by name) instead of being numbered -9223372036854775808; replayed on
+    the real parser by tools/props/c10.py (edge case enum_value_after_max_int64). *)
+Theorem c10_enum_numbering_overflow : forall n1 n2 : bytes,
+  enum_overflow [(mkev None n1 9223372036854775807 [], true); (mkev None n2 (-1) [], false)] 0 false = Some n2
   /\ thrift_numbering [Some 9223372036854775807; None] (-1) = [9223372036854775807; 9223372036854775808].
 Proof. exact enum_numbering_overflow. Qed.
-Print Assumptions c10_enum_numbering_overflow_refuted.
+Print Assumptions c10_enum_numbering_overflow.
 
 (** * The grammar under the theorems is the one in the source tree now
     node and rule counts agree with the translator's count of the Go literal; every rule reference
@@ -163,12 +172,15 @@ Print Assumptions c10_blank_gap_independence.
 
 (** * Stage 5. parse (render s m) = m, proved for the fragment "typedefs of base types and enums"
     For every sequence of declarations, each either
-        typedef <blanks> base <blanks> name <blanks> LF <blanks and line breaks>
+        typedef <blanks> base <blanks+> name <blanks> LF <blanks and line breaks>
     or
         enum <blanks> name <blanks/LFs> { <blanks/LFs> value* } <blanks> LF <blanks and line breaks>
     where base is one of the eight base-type keywords, every name is ANY identifier-shaped byte
     string (in particular names beginning with a keyword), every gap is an arbitrary -- possibly
-    empty -- run, and every enum value is spelled in one of the four ways
+    empty -- run except <blanks+> after the base-type keyword (at least one blank: since the repair of
+    C10-F8a  i32x  is a name, not  i32  followed by  x), no enum has a value without a number right after
+    9223372036854775807 (the Enum action reports that: [c10_enum_numbering]), and every enum value is
+    spelled in one of the four ways
         name W  |  name g , W  |  name g ; W  |  name g = g' z W  |  name g = g' z g'' , W  (or ;)
     with z any 64-bit integer (explicit negative values included) and W blanks / line breaks
     (a bare  name  with nothing after it only in last position), preceded by arbitrary blanks
@@ -188,14 +200,15 @@ Theorem c10_roundtrip_partial : forall (w0 : bytes) (ds : list decl_spec),
 Proof. exact roundtrip_decls. Qed.
 Print Assumptions c10_roundtrip_partial.
 
-(** the enums in that result: names as declared, values = Apache Thrift's numbering of the
-    declared (optional) numbers -- the enum-numbering theorem carried through the whole parser
-    (same range hypothesis) *)
+(** the enums in that result: names as declared, values = Apache Thrift's numbering of the declared
+    (optional) numbers, every one of them a 64-bit integer -- the enum-numbering theorem carried through the
+    whole parser; no range hypothesis beyond those of the round-trip theorem itself ([en_ok]) *)
 Theorem c10_enum_numbering_end_to_end : forall e : en_spec,
-  numbering_in_range (map (fun v => declared (v_tail v)) (e_vs e)) (-1) ->
-  map ev_value (en_values (enum_of e)) = thrift_numbering (map (fun v => declared (v_tail v)) (e_vs e)) (-1)
+  en_ok e ->
+  Forall in64 (thrift_numbering (map (fun v => declared (v_tail v)) (e_vs e)) (-1))
+  /\ map ev_value (en_values (enum_of e)) = thrift_numbering (map (fun v => declared (v_tail v)) (e_vs e)) (-1)
   /\ map ev_name (en_values (enum_of e)) = map (fun v => v_c v :: v_t v) (e_vs e).
-Proof. exact enum_of_numbering. Qed.
+Proof. exact enum_of_numbering_ok. Qed.
 Print Assumptions c10_enum_numbering_end_to_end.
 
 (** * Stage 5, continued: the fragment grown to struct / exception / union declarations with fields,
@@ -207,24 +220,29 @@ Print Assumptions c10_enum_numbering_end_to_end.
     other than the double quote, backslash and line break, or
         struct|exception|union <blanks> name <blanks/LFs> { <blanks/LFs> field* } <blanks> LF <blanks/LFs>
     where a field is
-        id <blanks> : <blanks> [required <blanks> | optional <blanks>] type name TAIL
+        id <blanks> : <blanks> [required <blanks+> | optional <blanks+>] type name TAIL
     with  id  any 64-bit integer in decimal (negative ids included),  type  one of
         base <blanks>  |  list< <blanks> type > <blanks>  |  set< <blanks> type > <blanks>
         |  map< <blanks> type , <blanks> type > <blanks>
     nested to any depth (base = one of the eight base-type keywords; the blanks after an element type
-    are that type's own, so every placement of blanks inside the angle brackets is covered),  name  ANY
+    are that type's own, so every placement of blanks inside the angle brackets is covered; a base-type
+    keyword directly before a name -- the type of a field, constant or method when it is not a container --
+    and the keywords required, optional, oneway and void are followed by at least one blank (or line
+    break where the grammar allows one): keywords end at a word boundary since the repairs of
+    C10-F8a..d),  name  ANY
     identifier-shaped byte string, and TAIL one of the three separator styles
         W  |  W , W'  |  W ; W'
     (W, W' arbitrary runs of blanks and line breaks; a field with nothing at all after its name only in
     last position), or
         service <blanks> name <blanks/LFs> { <blanks/LFs> method* } <blanks> LF <blanks/LFs>
     where a method is
-        [oneway <blanks/LFs>] (void <blanks/LFs> | type <LF-led blanks/LFs>) name <blanks> ( <blanks/LFs> field* )
+        [oneway <blanks/LFs+>] (void <blanks/LFs+> | type <LF-led blanks/LFs>) name <blanks> ( <blanks/LFs> field* )
         W2 [throws <blanks/LFs> ( <blanks/LFs> field* ) <blanks>] [, | ;] W3
     (argument and exception lists are field lists exactly as above; after a throws clause without a
     separator, W3 is empty or begins with a line break): the parser model -- additionally through Const, ConstValue (Literal, and for an
     integer the failing Literal, BoolConstant and DoubleConstant -- which consumes sign and digits and
-    backtracks at the missing '.' -- before IntConstant), Literal with its action strconv.Unquote,
+    backtracks at the missing '.' -- before IntConstant), Literal (with its failing escape alternatives) and
+    its action unquoteLiteral (escaped-quote normalisation, then strconv.Unquote),
     Struct, Exception, Union, StructLike, FieldList, Field (with its absent doc comment, default value
     and annotations), FieldModifier, FieldType, ContainerType, MapType, SetType, ListType (with the
     absent cpp_type), WS, Service (with the absent extends clause), Function, FunctionType, Throws and
@@ -270,69 +288,156 @@ Proof. exact (conj const_value_int const_value_str). Qed.
 Print Assumptions c10_const_value_roundtrip.
 
 (** the derivation of a field type alone: FieldType on any rendered type, followed by anything that is
-    not a blank, '/' or '(', consumes exactly the type and returns its tree *)
+    not a blank, '/' or '(' -- and, when the type is a bare base-type keyword, its blanks followed by
+    something that cannot continue a word ([ty_sep]; otherwise the text is a longer identifier) --
+    consumes exactly the type and returns its tree *)
 Theorem c10_field_type_roundtrip : forall (t : ty_spec) (more : bytes) cr o es fr,
-  ty_ok t -> head_not [32; 9; 13; 47; 40] more ->
+  ty_ok t -> head_not [32; 9; 13; 47; 40] more -> ty_sep t more ->
   exists o', evals (CRef 22) cr (mkst (render_ty t more) o es) fr
                    (Done true (VType (ty_of t)) (mkst more o' es) fr).
-Proof. exact (fun t more cr o es fr Hok Hm => field_type_rule t Hok more cr o es fr Hm). Qed.
+Proof. exact (fun t more cr o es fr Hok Hm Hs => field_type_rule t Hok more cr o es fr Hm Hs). Qed.
 Print Assumptions c10_field_type_roundtrip.
 
-(** * Stage 2 and the separator/comment stages: refuted on the code as it is.
-    Intended statement (FieldType longest match): for every identifier x that is not a base-type
-    keyword, [typedef x T] parses to a typedef of the named type x.
-    Refuted: names that begin with a base-type keyword are rejected (known finding C10-F8a). *)
-Theorem c10_fieldtype_longest_match_refuted :
-  is_rejected (parse_idl (idl "typedef i32x T")) = true
-  /\ is_rejected (parse_idl (idl "struct S { 1: stringList names }")) = true
-  /\ is_rejected (parse_idl (idl "service S { binary_data get() }")) = true.
+(** * Stage 2. Keywords end at a word boundary (for all inputs)
+    For each of the keywords the pinned grammar matched as a prefix -- the eight base-type names (rule
+    BaseTypeName), required / optional (FieldModifier), true / false (BoolConstant), oneway (in Function) and
+    void (in FunctionType) -- and EVERY continuation  d s  where d is an ASCII character that can continue an
+    identifier (letter, digit, '.', '_'): the rule (for oneway / void: the guarded keyword inside its rule)
+    does not match the keyword and leaves position, error list and labels alone (the optional oneway yields
+    nil).  Before the repairs of C10-F8a..e each of these matched, so that  i32x, optionalThing, onewayTicket,
+    voidable, trueValue  were split or rejected. *)
+Theorem c10_keyword_boundary : forall (d : Z) (s : bytes) cr o es fr,
+  ascii d -> p_cont d = true -> ascii_next s ->
+  (forall base, is_base base ->
+     evals (CRef 24) cr (mkst (base ++ d :: s) o es) fr (Done false VNil (mkst (base ++ d :: s) o es) fr))
+  /\ (forall kw, kw = lit_required \/ kw = lit_optional ->
+     evals (CRef 16) cr (mkst (kw ++ d :: s) o es) fr (Done false VNil (mkst (kw ++ d :: s) o es) fr))
+  /\ (forall kw, kw = lit_true \/ kw = lit_false ->
+     evals (CRef 33) cr (mkst (kw ++ d :: s) o es) fr (Done false VNil (mkst (kw ++ d :: s) o es) fr))
+  /\ evals oneway_opt cr (mkst (lit_oneway ++ d :: s) o es) fr
+           (Done true VNil (mkst (lit_oneway ++ d :: s) o es) (("oneway"%string, VNil) :: fr))
+  /\ evals (CSeq [CLit lit_void; kw_guard]) cr (mkst (lit_void ++ d :: s) o es) fr
+           (Done false VNil (mkst (lit_void ++ d :: s) o es) fr).
+Proof.
+  exact (fun d s cr o es fr Hd Hp Hs =>
+    conj (fun base Hb => base_type_name_boundary base d s cr o es fr Hb Hd Hp Hs)
+   (conj (fun kw Hk => field_modifier_boundary kw d s cr o es fr Hk Hd Hp Hs)
+   (conj (fun kw Hk => bool_constant_boundary kw d s cr o es fr Hk Hd Hp Hs)
+   (conj (oneway_boundary d s cr o es fr Hd Hp Hs) (void_boundary d s cr o es fr Hd Hp Hs))))).
+Qed.
+Print Assumptions c10_keyword_boundary.
+
+(** ... and where nothing that continues a word follows, the keyword is the keyword: BaseTypeName on each of
+    the eight names, BoolConstant on true / false (for required / optional / oneway / void this is part of
+    [c10_roundtrip_structs_partial]) *)
+Theorem c10_keyword_matches : forall (follow : bytes) cr o es fr,
+  stops p_cont follow ->
+  (forall base, is_base base ->
+     evals (CRef 24) cr (mkst (base ++ follow) o es) fr
+           (Done true (VStr base) (mkst follow (o + Z.of_nat (List.length base)) es) fr))
+  /\ (forall b : bool,
+     evals (CRef 33) cr (mkst ((if b then lit_true else lit_false) ++ follow) o es) fr
+           (Done true (VBool b) (mkst follow (o + Z.of_nat (List.length (if b then lit_true else lit_false))) es) fr)).
+Proof.
+  exact (fun follow cr o es fr Hst =>
+    conj (fun base Hb => base_type_name base follow cr o es fr Hb Hst)
+         (fun b => bool_constant_rule b follow cr o es fr Hst)).
+Qed.
+Print Assumptions c10_keyword_matches.
+
+(** FieldType longest match (the statement DESIGN.md planned as stage 2): for every base-type keyword
+    [base], every identifier character d and run of identifier characters t -- i.e. every name that begins
+    with a base-type keyword: i32x, stringList, binary_data, bool_, double.x, ... -- followed by end of input
+    or an ASCII character that cannot continue an identifier, the rule FieldType consumes exactly the name and
+    yields the named type: BaseType fails at the word boundary, no container keyword matches, Identifier
+    takes the whole word.  (Refuted on the pinned grammar by  typedef i32x T.) *)
+Theorem c10_fieldtype_longest_match : forall (base : bytes) (d : Z) (t follow : bytes) cr o es fr,
+  is_base base -> ascii d -> p_cont d = true -> run_of p_cont t -> stops p_cont follow ->
+  evals (CRef 22) cr (mkst ((base ++ d :: t) ++ follow) o es) fr
+        (Done true (VType (PType (base ++ d :: t) None None []))
+              (mkst follow (o + Z.of_nat (List.length (base ++ d :: t))) es) fr).
+Proof. exact field_type_keyword_prefixed_name. Qed.
+Print Assumptions c10_fieldtype_longest_match.
+
+(** * Keyword boundaries and the separator / comment / literal stages: instances through the whole parser
+    The pinned grammar matched its keywords as prefixes (known findings C10-F8a..e, now repaired: the keyword
+    must be followed by something that cannot continue an identifier).  Each theorem below was the
+    [_refuted] witness of its defect and now states what the model of the repaired grammar -- and the real
+    parser, on which tools/props/c10.py replays the same texts -- returns. *)
+(** names that begin with a base-type keyword are type names (C10-F8a) *)
+Theorem c10_fieldtype_longest_match_instances :
+  (exists f, parse_idl (idl "typedef i32x T") = POk f
+             /\ map (fun t => tname (td_type t)) (fr_typedefs f) = [bytes_of_string "i32x"])
+  /\ (exists f, parse_idl (idl "struct S { 1: stringList names }") = POk f
+                /\ map (fun s => map (fun fl => tname (f_type fl)) (s_fields s)) (fr_structs f)
+                   = [[bytes_of_string "stringList"]])
+  /\ (exists f, parse_idl (idl "service S { binary_data get() }") = POk f
+                /\ map (fun s => map (fun m => option_map tname (m_return m)) (sv_methods s)) (fr_services f)
+                   = [[Some (bytes_of_string "binary_data")]]).
 Proof. exact w_basetype_prefix. Qed.
-Print Assumptions c10_fieldtype_longest_match_refuted.
+Print Assumptions c10_fieldtype_longest_match_instances.
 
-(** a field of type optionalThing is read as an optional field of type Thing (C10-F8b) *)
-Theorem c10_field_modifier_boundary_refuted :
-  exists f, parse_idl (idl "struct S { 1: optionalThing x }") = POk f
+(** a field of type optionalThing has that type and the default modifier; optional Thing is optional (C10-F8b) *)
+Theorem c10_field_modifier_boundary :
+  exists f, parse_idl (idl "struct S { 1: optionalThing x, 2: optional Thing y }") = POk f
             /\ map (fun s => map (fun fl => (f_mod fl, tname (f_type fl))) (s_fields s)) (fr_structs f)
-               = [[(m_optional, bytes_of_string "Thing")]].
+               = [[(m_default, bytes_of_string "optionalThing"); (m_optional, bytes_of_string "Thing")]].
 Proof. exact w_modifier_prefix. Qed.
-Print Assumptions c10_field_modifier_boundary_refuted.
+Print Assumptions c10_field_modifier_boundary.
 
-(** a method returning onewayTicket is read as a oneway method returning Ticket (C10-F8c);
-    a method returning voidable is rejected (C10-F8d) *)
-Theorem c10_function_type_boundary_refuted :
-  (exists f, parse_idl (idl "service S { onewayTicket get() }") = POk f
+(** a method returning onewayTicket is a two-way method returning that type (C10-F8c);
+    a method returning voidable is accepted and returns that type (C10-F8d) *)
+Theorem c10_function_type_boundary :
+  (exists f, parse_idl (idl "service S { onewayTicket get(), oneway void put() }") = POk f
              /\ map (fun s => map (fun m => (m_oneway m, option_map tname (m_return m))) (sv_methods s)) (fr_services f)
-                = [[(true, Some (bytes_of_string "Ticket"))]])
-  /\ is_rejected (parse_idl (idl "service S { voidable get() }")) = true.
+                = [[(false, Some (bytes_of_string "onewayTicket")); (true, None)]])
+  /\ (exists f, parse_idl (idl "service S { voidable get(), void put() }") = POk f
+                /\ map (fun s => map (fun m => option_map tname (m_return m)) (sv_methods s)) (fr_services f)
+                   = [[Some (bytes_of_string "voidable"); None]]).
 Proof. exact (conj w_oneway_prefix w_void_prefix). Qed.
-Print Assumptions c10_function_type_boundary_refuted.
+Print Assumptions c10_function_type_boundary.
 
-(** a constant reference trueValue is rejected, or inside a list split into true and Value (C10-F8e) *)
-Theorem c10_bool_constant_boundary_refuted :
-  is_rejected (parse_idl (idl "const bool y = trueValue")) = true
-  /\ exists f, parse_idl (idl "const list<bool> y = [trueValue]") = POk f
-               /\ map c_value (fr_constants f) = [CList [CBool true; CIdent (bytes_of_string "Value")]].
+(** a constant reference trueValue is an identifier, alone and inside a list (C10-F8e) *)
+Theorem c10_bool_constant_boundary :
+  (exists f, parse_idl (idl "const bool y = trueValue") = POk f
+             /\ map c_value (fr_constants f) = [CIdent (bytes_of_string "trueValue")])
+  /\ exists f, parse_idl (idl "const list<bool> y = [trueValue, true, falsey]") = POk f
+               /\ map c_value (fr_constants f)
+                  = [CList [CIdent (bytes_of_string "trueValue"); CBool true; CIdent (bytes_of_string "falsey")]].
 Proof. exact w_bool_prefix. Qed.
-Print Assumptions c10_bool_constant_boundary_refuted.
+Print Assumptions c10_bool_constant_boundary.
 
-(** independence of whitespace / comment / separator style fails in four ways:
-    a line break inside a declaration head (C10-F16), a comment after the keyword prefix becomes
-    part of the prefix (C10-F17), ';' between constant-map entries (C10-F18) *)
+(** independence of whitespace / comment / separator style still fails in one way: a line break inside a
+    declaration head is rejected (C10-F16: the grammar's '_' positions admit blanks and /* */ comments only,
+    because a line break is also its statement terminator; not repaired) *)
 Theorem c10_separator_comment_independence_refuted :
-  is_rejected (parse_idl (cat [bytes_of_string "typedef"; [10]; bytes_of_string "  i32 T"; [10]])) = true
-  /\ (exists f, parse_idl (idl "scope S prefix /* topic */ foo.bar {}") = POk f
-                /\ map (fun s => p_string (sc_prefix s)) (fr_scopes f) = [bytes_of_string "/* topic */ foo.bar"])
-  /\ is_rejected (parse_idl (idl "const map<i32,i32> m = {1:2; 3:4}")) = true.
-Proof. exact (conj w_newline_inside_declaration (conj w_comment_in_prefix w_const_map_semicolon)). Qed.
+  is_rejected (parse_idl (cat [bytes_of_string "typedef"; [10]; bytes_of_string "  i32 T"; [10]])) = true.
+Proof. exact w_newline_inside_declaration. Qed.
 Print Assumptions c10_separator_comment_independence_refuted.
 
-(** literal round trip fails for a value ending in a backslash ("a\\", C10-F19) and for an
-    escaped apostrophe inside double quotes ("it\'s", C10-F20) *)
-Theorem c10_literal_roundtrip_refuted :
-  is_rejected (parse_idl (cat [bytes_of_string "const string s = "; [34; 97; 92; 92; 34; 10]])) = true
-  /\ is_rejected (parse_idl (cat [bytes_of_string "const string s = "; [34; 105; 116; 92; 39; 115; 34; 10]])) = true.
+(** the two other ways it failed are repaired: a comment after the keyword prefix is not part of the prefix
+    (C10-F17), and constant-map entries may be separated by ';' (C10-F18) or by nothing (C10-F23) *)
+Theorem c10_separator_comment_independence_instances :
+  (exists f, parse_idl (idl "scope S prefix /* topic */ foo.{user}.bar {}") = POk f
+             /\ map (fun s => (p_string (sc_prefix s), p_vars (sc_prefix s))) (fr_scopes f)
+                = [(bytes_of_string "foo.{user}.bar", [bytes_of_string "user"])])
+  /\ (exists f, parse_idl (idl "const map<i32,i32> m = {1:2; 3:4, 5:6 7:8;}") = POk f
+                /\ map c_value (fr_constants f)
+                   = [CMap [(CInt 1, CInt 2); (CInt 3, CInt 4); (CInt 5, CInt 6); (CInt 7, CInt 8)]]).
+Proof. exact (conj w_comment_in_prefix w_const_map_semicolon). Qed.
+Print Assumptions c10_separator_comment_independence_instances.
+
+(** literal round trip, formerly refuted: a value ending in a backslash ("a\\", C10-F19), an escaped apostrophe
+    inside double quotes ("it\'s") and escaped double quotes inside apostrophes ('\"hi\"') (C10-F20) *)
+Theorem c10_literal_roundtrip_instances :
+  (exists f, parse_idl (cat [bytes_of_string "const string s = "; [34; 97; 92; 92; 34; 10]]) = POk f
+             /\ map c_value (fr_constants f) = [CStr [97; 92]])
+  /\ (exists f, parse_idl (cat [bytes_of_string "const string s = "; [34; 105; 116; 92; 39; 115; 34; 10]]) = POk f
+                /\ map c_value (fr_constants f) = [CStr [105; 116; 39; 115]])
+  /\ (exists f, parse_idl (cat [bytes_of_string "const string s = "; [39; 92; 34; 104; 105; 92; 34; 39; 10]]) = POk f
+                /\ map c_value (fr_constants f) = [CStr [34; 104; 105; 34]]).
 Proof. exact w_literals. Qed.
-Print Assumptions c10_literal_roundtrip_refuted.
+Print Assumptions c10_literal_roundtrip_instances.
 
 (** ParseFrugal (model of parser.go:49-110 and validate): a top-level constant whose value names an
     enum member is accepted, like the same reference as a field default (was rejected on the pinned
@@ -364,6 +469,19 @@ Proof.
   vm_compute. reflexivity.
 Qed.
 
+(** the keyword theorems' hypotheses hold of  i32  followed by  x  and of the name  i32x_  before a blank; the
+    interpreter run on  "i32x_ T"  from FieldType gives the named type *)
+Example c10_keyword_boundary_nonvacuous :
+  is_base (bytes_of_string "i32") /\ ascii 120 /\ p_cont 120 = true /\ run_of p_cont [95] /\ stops p_cont [32; 84]
+  /\ Peg.eval action val aerr VNil VBytes VList run_action rules 40 (CRef 22) 0
+              (mkst [105; 51; 50; 120; 95; 32; 84] 0 []) []
+     = Done true (VType (PType [105; 51; 50; 120; 95] None None [])) (mkst [32; 84] 5 []) [].
+Proof.
+  split; [right; right; right; left; reflexivity|]. split; [unfold ascii; lia|]. split; [reflexivity|].
+  split; [repeat constructor; unfold ascii; lia|]. split; [split; [unfold ascii; lia | reflexivity]|].
+  vm_compute. reflexivity.
+Qed.
+
 Example c10_int_const_nonvacuous :
   render_int (-9223372036854775808) = [45; 57; 50; 50; 51; 51; 55; 50; 48; 51; 54; 56; 53; 52; 55; 55; 53; 56; 48; 56]
   /\ stops p_digit [59].
@@ -387,7 +505,7 @@ Example c10_roundtrip_nonvacuous :
 Proof.
   split; [|split].
   - repeat split; cbn; try reflexivity; try (repeat constructor; unfold ascii; lia); try (unfold ascii; lia); try lia;
-      try (unfold is_base, base_lits; cbn; repeat (first [left; reflexivity | right])).
+      try discriminate; try (unfold is_base, base_lits; cbn; repeat (first [left; reflexivity | right])).
   - unfold decl_ok, en_ok, evs_ok, ev_ok_l, tail_ok_l, tail_ok, is_sep, int64.
     cbn [e_g1 e_c e_t e_w1 e_w2 e_vs e_g3 e_w v_c v_t v_tail].
     repeat split; try reflexivity; try (repeat constructor; unfold ascii; lia); try (unfold ascii; lia); try lia;
@@ -474,6 +592,10 @@ Proof.
              | |- is_sep _ => unfold is_sep; lia
              | |- ascii _ => unfold ascii; lia
              | |- int64 _ => unfold int64; lia
+             | |- _ <> _ => discriminate
+             | |- ty_tight _ => cbn
+             | |- ty_tight _ \/ _ => cbn
+             | |- True \/ _ => left; exact I
              | |- _ \/ _ => vm_compute; repeat (first [left; reflexivity | right])
              | |- _ = _ -> _ => first [discriminate | intros _; reflexivity]
              | |- _ = _ => reflexivity
